@@ -396,6 +396,26 @@ func (nd *Node) Propose() (block []byte, results *lib.CertificateResult, rcBuild
 	return
 }
 
+// ProposeVDF is Propose with a verifiable-delay-function result handed to ProduceProposal, as the BFT
+// does when the node runs a VDF (nil = none). Use MakeVDF for a valid one.
+func (nd *Node) ProposeVDF(vdf *crypto.VDF) (block []byte, results *lib.CertificateResult, rcBuildHeight uint64, err lib.ErrorI) {
+	nd.enter()
+	defer recoverTo(&err)
+	rcBuildHeight, block, results, err = nd.C.ProduceProposal(noEvidence(), vdf)
+	return
+}
+
+// MakeVDF computes a real VDF over the hash of the node's last committed block (the seed
+// ProduceProposal and ApplyAndValidateBlock verify against). Only meaningful from height 2 on.
+func (nd *Node) MakeVDF(iterations int) *crypto.VDF {
+	seed := nd.BlockHash(nd.Height() - 1)
+	out, proof := crypto.GenerateVDF(seed, iterations, nil)
+	if out == nil {
+		realCode("crypto.GenerateVDF", fmt.Errorf("no output for %d iterations", iterations))
+	}
+	return &crypto.VDF{Output: out, Proof: proof, Iterations: uint64(iterations)}
+}
+
 // CheckMempool re-runs the mempool check explicitly (what CommitCertificate and the lazy checker do).
 func (nd *Node) CheckMempool() (err lib.ErrorI) {
 	nd.enter()
@@ -567,6 +587,97 @@ func (nd *Node) MaxBlockSize() uint64 {
 
 // MempoolOrder returns the mempool's transactions in the order a proposal executes them.
 func (nd *Node) MempoolOrder() [][]byte { return nd.C.Mempool.GetTransactions(^uint64(0)) }
+
+// IndexDump lists what transaction handlers write into the indexer, read through the public read
+// API of the node's working store: every checkpoint of the given chains, and every indexed double
+// signer (address and heights). Sorted, one string per entry.
+func (nd *Node) IndexDump(chains ...uint64) (out []string) {
+	nd.enter()
+	st := nd.C.FSM.Store().(lib.StoreI)
+	for _, ch := range chains {
+		cps, err := st.GetAllCheckpoints(ch)
+		realCode("GetAllCheckpoints", err)
+		for _, cp := range cps {
+			out = append(out, fmt.Sprintf("checkpoint chain=%d height=%d hash=%s", ch, cp.Height, hex.EncodeToString(cp.BlockHash)))
+		}
+		mr, err := st.GetMostRecentCheckpoint(ch)
+		realCode("GetMostRecentCheckpoint", err)
+		if mr != nil && len(mr.BlockHash) != 0 {
+			out = append(out, fmt.Sprintf("most-recent-checkpoint chain=%d height=%d hash=%s", ch, mr.Height, hex.EncodeToString(mr.BlockHash)))
+		}
+	}
+	ds, err := st.GetDoubleSigners()
+	realCode("GetDoubleSigners", err)
+	for _, d := range ds {
+		for _, h := range d.Heights {
+			out = append(out, fmt.Sprintf("double-signer id=%s height=%d", hex.EncodeToString(d.Id), h))
+		}
+	}
+	sort.Strings(out)
+	return
+}
+
+// IndexPoints reads the same index content by point lookups (GetCheckpoint per chain and height,
+// IsValidDoubleSigner per address and height) over the given probe universe. Unlike the iterators of
+// IndexDump, point reads also see the writes pending in the working store of the current block (the
+// top-level indexer transaction is unsorted: its iterators only see committed entries).
+func (nd *Node) IndexPoints(chains, checkpointHeights []uint64, addrs [][]byte, evidenceHeights []uint64) (out []string) {
+	nd.enter()
+	st := nd.C.FSM.Store().(lib.StoreI)
+	for _, ch := range chains {
+		for _, h := range checkpointHeights {
+			hash, err := st.GetCheckpoint(ch, h)
+			realCode("GetCheckpoint", err)
+			if len(hash) != 0 {
+				out = append(out, fmt.Sprintf("checkpoint chain=%d height=%d hash=%s", ch, h, hex.EncodeToString(hash)))
+			}
+		}
+	}
+	for _, a := range addrs {
+		for _, h := range evidenceHeights {
+			fresh, err := st.IsValidDoubleSigner(a, h)
+			realCode("IsValidDoubleSigner", err)
+			if !fresh {
+				out = append(out, fmt.Sprintf("double-signer id=%s height=%d", hex.EncodeToString(a), h))
+			}
+		}
+	}
+	sort.Strings(out)
+	return
+}
+
+// ApplyUnnested is the plain reference for "what the successful transactions of a block write":
+// the message handler of every given transaction is run, in order, directly on the node's working
+// state machine — no per-transaction nested store, no fee, no mempool — and f observes the result
+// (through the working store); the working state is reset afterwards. An error of a handler is
+// returned with the index of the transaction.
+func (nd *Node) ApplyUnnested(txs [][]byte, f func()) (failedAt int, err lib.ErrorI) {
+	nd.enter()
+	defer recoverTo(&err)
+	defer nd.C.ResetFSM()
+	nd.C.ResetFSM()
+	for i, bz := range txs {
+		tx := new(lib.Transaction)
+		if err = lib.Unmarshal(bz, tx); err != nil {
+			return i, err
+		}
+		pm, e := lib.FromAny(tx.Msg)
+		if e != nil {
+			return i, e
+		}
+		msg, ok := pm.(lib.MessageI)
+		if !ok {
+			return i, lib.NewError(lib.NoCode, "verif", "not a message")
+		}
+		pk, _ := crypto.NewPublicKeyFromBytes(tx.Signature.PublicKey)
+		nd.C.FSM.PopulateSpecialMessageFields(tx, pk.Address(), msg)
+		if err = nd.C.FSM.HandleMessage(msg); err != nil {
+			return i, err
+		}
+	}
+	f()
+	return -1, nil
+}
 
 // QCByHeight is the archive read (store.GetQCByHeight through the FSM).
 func (nd *Node) QCByHeight(height uint64) (*lib.QuorumCertificate, lib.ErrorI) {
